@@ -140,4 +140,85 @@ theorem insertAllPtr_refines : ∀ (nodes : List Nat) (st : Store) (tree : Ptr) 
         · exact h3 h'
       rw [k7 j h5 h4, hsame1 j h1 h3]
 
+
+/-! ## from the pool to the tree: `pool_Create(n)`, the caller's `node->key = k`, then the insertions -/
+
+/-- the caller writes the keys into the records it took: `node->key = k` -/
+def setKeys (st : Store) : List Nat → List Int → Store
+  | n :: ns, k :: ks =>
+    setKeys (match wr st n (fun nd => { nd with key := k }) with
+             | some st' => st'
+             | none => st) ns ks
+  | _, _ => st
+
+theorem rd_setKeys_notin : ∀ (l : List Nat) (ks : List Int) (st : Store) (j : Nat), j ∉ l → rd (setKeys st l ks) j = rd st j
+  | [], _, _, _, _ => by simp [setKeys]
+  | _ :: _, [], _, _, _ => by simp [setKeys]
+  | n :: ns, k :: ks, st, j, hj => by
+    simp only [List.mem_cons, not_or] at hj
+    simp only [setKeys]
+    rw [rd_setKeys_notin ns ks _ j hj.2]
+    cases hw : wr st n (fun nd => { nd with key := k }) with
+    | none => rfl
+    | some st' => exact rd_wr_ne hw hj.1
+
+/-- after the caller wrote the keys, the records carry them and are otherwise as handed out -/
+theorem setKeys_spec : ∀ (l : List Nat) (ks : List Int) (st : Store), l.Nodup → l.length = ks.length →
+    (∀ n ∈ l, ∃ nd, rd st n = some nd ∧ nd.parent = none) →
+    keysOf (setKeys st l ks) l = ks ∧ ∀ n ∈ l, ∃ nd, rd (setKeys st l ks) n = some nd ∧ nd.parent = none
+  | [], [], _, _, _, _ => ⟨rfl, fun _ h => by cases h⟩
+  | [], _ :: _, _, _, h, _ => by simp at h
+  | _ :: _, [], _, _, h, _ => by simp at h
+  | n :: ns, k :: ks, st, hnd, hlen, hread => by
+    obtain ⟨hn, hns⟩ := List.nodup_cons.mp hnd
+    obtain ⟨nd, hr, hp⟩ := hread n List.mem_cons_self
+    have hw := wr_of_rd (fun nd => { nd with key := k }) hr
+    have hrn : rd (st.setIfInBounds n { nd with key := k }) n = some { nd with key := k } := rd_set_same _ hr
+    have hother : ∀ m, m ≠ n → rd (st.setIfInBounds n { nd with key := k }) m = rd st m := fun m hm => rd_set_ne st _ hm
+    obtain ⟨ih1, ih2⟩ := setKeys_spec ns ks (st.setIfInBounds n { nd with key := k }) hns (by simpa using hlen)
+      (fun m hm => by
+        obtain ⟨md, h1, h2⟩ := hread m (List.mem_cons_of_mem _ hm)
+        exact ⟨md, by rw [hother m (fun e => hn (e ▸ hm))]; exact h1, h2⟩)
+    have hfin : rd (setKeys st (n :: ns) (k :: ks)) n = some { nd with key := k } := by
+      simp only [setKeys, hw]
+      rw [rd_setKeys_notin ns ks _ n hn]; exact hrn
+    refine ⟨?_, fun m hm => ?_⟩
+    · have : keysOf (setKeys st (n :: ns) (k :: ks)) (n :: ns) = k :: keysOf (setKeys st (n :: ns) (k :: ks)) ns := by
+        simp only [keysOf, List.map_cons, hfin]
+      rw [this]
+      congr 1
+      simp only [setKeys, hw]
+      exact ih1
+    · rcases List.mem_cons.mp hm with rfl | h
+      · exact ⟨_, hfin, hp⟩
+      · simp only [setKeys, hw]; exact ih2 m h
+
+/-- END TO END: `esl_red_black_doublekey_pool_Create(|ks|)`, the keys `ks` written into the block's records in address order,
+    the records offered one after the other: for EVERY key list the insertions never fail and the store then lays out exactly
+    the tree `Tree.insertAll .nil ks` — ordered, balanced, holding every key of `ks` -/
+theorem pool_history (st : Store) (ks : List Int) :
+    ∃ st' tree' t', insertAllPtr (setKeys (poolCreate st ks.length).1 (List.range' st.size ks.length) ks) none
+        (List.range' st.size ks.length) = some (st', tree') ∧ ReprP st' t' tree' none ∧ t'.ids.Nodup ∧
+      Tree.insertAll .nil ks = some (absTree st' t') ∧ Tree.WF (absTree st' t') ∧
+      (∀ x, x ∈ Tree.toList (absTree st' t') ↔ x ∈ ks) ∧ (∀ j, j < st.size → rd st' j = rd st j) := by
+  have hnd : (List.range' st.size ks.length).Nodup := List.nodup_range'
+  have hread : ∀ n ∈ List.range' st.size ks.length, ∃ nd, rd (poolCreate st ks.length).1 n = some nd ∧ nd.parent = none := by
+    intro n hn
+    obtain ⟨h1, h2⟩ := List.mem_range'_1.mp hn
+    have := rd_poolCreate_new st ks.length (n - st.size) (by omega)
+    rw [show st.size + (n - st.size) = n by omega] at this
+    exact ⟨_, this, rfl⟩
+  obtain ⟨e1, e2⟩ := setKeys_spec _ ks (poolCreate st ks.length).1 hnd (by simp) hread
+  obtain ⟨st', tree', t', h1, h2, h3, h4, h5, h6, h7⟩ :=
+    insertAllPtr_refines _ (setKeys (poolCreate st ks.length).1 (List.range' st.size ks.length) ks) none .nil rfl List.nodup_nil
+      Tree.wf_nil hnd (fun _ _ h => by cases h) e2
+  rw [e1] at h4
+  have h4' : Tree.insertAll .nil ks = some (absTree st' t') := h4
+  obtain ⟨T, f1, _, f3⟩ := Tree.insertAll_spec ks
+  have hT : T = absTree st' t' := by rw [f1] at h4'; exact Option.some.inj h4'
+  refine ⟨st', tree', t', h1, h2, h3, h4', h5, hT ▸ f3, fun j hj => ?_⟩
+  have hjn : j ∉ List.range' st.size ks.length := fun h => by
+    have := (List.mem_range'_1.mp h).1; omega
+  rw [h7 j (fun h => by cases h) hjn, rd_setKeys_notin _ _ _ j hjn, rd_poolCreate_old st _ j hj]
+
 end EaselModel.Containers.RedBlackPtr
